@@ -172,6 +172,12 @@ MUTANTS = [
     ("c20-delay-sign-unchecked", ["C20"], N + "node.py",
      "        assert val >= 0, f\"{self.id}- Delay must be non-negative\"",
      "        val = abs(val)"),
+    ("c20-chain-helper-skips-last-buffer", ["C20"], "factorysimpy/constructs/chain.py",
+     "    for i in range(1, len(machines)):",
+     "    for i in range(1, len(machines) - 1):"),
+    ("c03-mesh-helper-wires-down-edge-to-right-neighbour", ["C20"], "factorysimpy/constructs/mesh.py",
+     "            if r + 1 < rows:\n                to_node = mesh_nodes[r+1][c]\n                edge_id = f\"{edge_prefix}_{from_node.id}_{to_node.id}\"\n                kwargs = edge_kwargs_grid[r][c] if edge_kwargs_grid else edge_kwargs\n                edge = edge_cls(env=env, id=edge_id, **kwargs)\n                edge.connect(from_node, to_node)",
+     "            if r + 1 < rows:\n                to_node = mesh_nodes[r+1][c]\n                edge_id = f\"{edge_prefix}_{from_node.id}_{to_node.id}\"\n                kwargs = edge_kwargs_grid[r][c] if edge_kwargs_grid else edge_kwargs\n                edge = edge_cls(env=env, id=edge_id, **kwargs)\n                edge.connect(from_node, mesh_nodes[r+1][(c+1) % cols])"),
     ("c20-fleet-never-rearms", ["C20", "C14"], B + "fleet_store.py",
      "            if self.activate_fleet.triggered:\n                #print(\"yes\")\n                self.activate_fleet = self.env.event()  # Reset the event for next activation",
      "            if self.activate_fleet.triggered and False:\n                #print(\"yes\")\n                self.activate_fleet = self.env.event()  # Reset the event for next activation"),
